@@ -662,10 +662,12 @@ class TrigTime:
             skip = True
             if match1[1] in cls.dow2int:
                 dow = cls.dow2int[match1[1]]
-                if dow >= (now.isoweekday() % 7):
-                    day_offset = dow - (now.isoweekday() % 7)
+                today = now.isoweekday() % 7
+                if dow > today or (dow == today and day_offset <= 0):
+                    day_offset = dow - today
                 else:
-                    day_offset = 7 + dow - (now.isoweekday() % 7)
+                    # an earlier day of the week, or today when a later day is asked for: next week
+                    day_offset = 7 + dow - today
                 fixed_date = True
             elif match1[1] == "today":
                 day_offset = 0
